@@ -1,3 +1,71 @@
-Require Import Base.Wire Base.PyStr C08.Model.
-Theorem C08_stub : True. Proof. exact Logic.I. Qed.
-Print Assumptions C08_stub.
+(* C08/Props.v — the property theorems, nothing else.
+   Model: C08/Model.v.  Proofs: Frame.v, PassA.v, PassB.v, PassC.v. *)
+From Coq Require Import List NArith ZArith Bool.
+Import ListNotations.
+Require Import Base.Wire Base.PyStr C08.Model C08.Frame C08.PassA C08.PassB C08.PassC.
+
+(* For every configuration, every state satisfying the invariant (in particular
+   the state right after a reset) and EVERY sequence of server messages
+   (any order, any oracle outcome), every emitted event satisfies OutA:
+   - a requested capability is wanted and was advertised at that time (GReq);
+   - echo-message is requested only if labeled-response is acknowledged or
+     heads the same request next to it (GReq);
+   - a credential chunk is sent only if 'sasl' was acknowledged on this
+     connection (SendCred ghost flag);
+   - a CAP END is the first of its connection (GEnd n: n = 1);
+   - an STS policy is stored only over a verified TLS connection (C09). *)
+Theorem C08_registration_safety :
+  forall c ms s, InvA s ->
+  InvA (fst (run_msgs c s ms)) /\ Forall (OutA c) (snd (run_msgs c s ms)).
+Proof. exact PassA.ok_run. Qed.
+Print Assumptions C08_registration_safety.
+
+(* the state after any reset satisfies the invariant: the theorem above applies
+   to every connection *)
+Theorem C08_reset_establishes_invariant : forall c s, InvA (rstate (reset c s)).
+Proof. intros c s. exact (proj1 (PassA.ok_reset c s)). Qed.
+Print Assumptions C08_reset_establishes_invariant.
+
+(* credentials are sent only in answer to an AUTHENTICATE from the server *)
+Theorem C08_credentials_invited :
+  forall c s m, match m with IAuth _ _ _ => False | _ => True end ->
+  Forall NoCred (routs (step c s m)).
+Proof. intros c s m H. exact (proj2 (creds_only_on_authenticate c s m H)). Qed.
+Print Assumptions C08_credentials_invited.
+
+(* Full statement: every CAP END is sent with no request outstanding.  The
+   pinned code violates it (finding F7).  Proved: it holds for every message
+   sequence without CAP NEW / CAP DEL ... *)
+Theorem C08_cap_end_quiescent_on_domain :
+  forall c ms s, forallb no_newdel ms = true -> InvB c s ->
+  InvB c (fst (run_msgs c s ms)) /\ Forall OutB (snd (run_msgs c s ms)).
+Proof. exact PassB.ok_run. Qed.
+Print Assumptions C08_cap_end_quiescent_on_domain.
+
+Theorem C08_reset_establishes_domain_invariant : forall c s, InvB c (rstate (reset c s)).
+Proof. intros c s. exact (proj1 (PassB.ok_reset c s)). Qed.
+Print Assumptions C08_reset_establishes_domain_invariant.
+
+(* ... and fails on a sequence with a CAP NEW during the SASL exchange *)
+Theorem C08_cap_end_quiescent_refuted :
+  exists c ms, existsb (fun o => match o with GEnd _ (_ :: _) => true | _ => false end)
+                       (snd (run_msgs c (start c) ms)) = true.
+Proof. eexists. eexists. exact (proj2 cap_end_outstanding_witness). Qed.
+Print Assumptions C08_cap_end_quiescent_refuted.
+
+(* After a reset the capability and SASL state is the initial one ... *)
+Theorem C08_reset_fresh :
+  forall c s, cap_part (rstate (reset c s)) = ([], [], [], [], c_mechs c, None, false, None).
+Proof. exact reset_fresh. Qed.
+Print Assumptions C08_reset_fresh.
+
+(* ... but a handler that triggers the reconnect keeps running on the fresh
+   state (finding F23): the new connection starts with ls and req non-empty *)
+Theorem C08_reset_fresh_refuted :
+  exists c s m, let '(s', outs, _) := step c s m in
+    existsb (fun o => match o with Reconnect (Some _) true => true | _ => false end) outs = true /\
+    ls s' <> [] /\ req s' <> [].
+Proof.
+  exists (cfg_plain false), (start (cfg_plain false)), sts_mid_msg. exact reset_not_fresh_witness.
+Qed.
+Print Assumptions C08_reset_fresh_refuted.
